@@ -1106,10 +1106,16 @@ class Generator:
         # partition-local RangeIndex: labels depend on the layout -> open
         return self.try_add({"op": "reset_index", "src": m.id, "drop": drop}, m.order, "open", self.next_id, "range")
 
+    def _sorts_below(self, mid):
+        by_id = {op["id"]: op for op in self.recipe["ops"]}
+        return sum(1 for i in cone(self.recipe, [mid]) if by_id[i]["op"] in ("set_index", "sort_values"))
+
     def g_set_index(self):
         m = self.pick(self.frames(lambda m: len(m.cols) >= 2))
         if not m:
             return None
+        if self._sorts_below(m.id) >= 2:
+            return None  # towers of nested sorts re-derive their quantiles recursively: cost, not coverage
         cands = self.cols_of(m, ("int", "float", "str", "dt"))
         if not cands:
             return None
@@ -1128,6 +1134,8 @@ class Generator:
     def g_sort_values(self):
         m = self.pick(self.frames())
         if not m:
+            return None
+        if self._sorts_below(m.id) >= 2:
             return None
         cands = self.cols_of(m, ("int", "float", "str", "dt"))
         if not cands:
